@@ -166,8 +166,9 @@ def check(case):
             f.append(('dump-load-file', '%s -> %s' % (short(open(p2, encoding='utf-8', newline='').read(), 200), short(back, 300))))
         buf = io.StringIO()
         penman.dump(gs, buf, model=m, indent=case['indent'], compact=case['compact'])
-        if buf.getvalue() != (s + '\n' if gs else ''):
-            f.append(('dump-equals-dumps', '%r vs %r' % (short(buf.getvalue(), 200), short(s, 200))))
+        back = _outcome(lambda: penman.loads(buf.getvalue(), model=m))
+        if back != ('ok', want):
+            f.append(('dump-load-stream', '%s -> %s' % (short(buf.getvalue(), 200), short(back, 300))))
     return f
 
 
